@@ -309,8 +309,14 @@ for it in range(nframes):
             chk.count(cs_history=['j_hat re-assigned', 'i_hat and j_hat re-assigned', 'origin re-assigned'][what_])
         shape = SHAPES[int(rng.integers(0, len(SHAPES)))]
         coords = dyadic(shape + (3,)) if exact else rng.normal(size=shape + (3,))
-        fr = cs.convert_from_gcs(g.Points(coords.copy())).coords
-        to = cs.convert_to_gcs(g.Points(coords.copy())).coords
+        # points whose coordinates are whole numbers may be stored in an integer array (np.arange(...).reshape(...)): same points
+        if exact and rng.random() < 0.35:
+            coords = np.round(coords)
+        int_pts = exact and bool(np.array_equal(coords, np.round(coords))) and rng.random() < 0.8
+        mk_ = (lambda c_: g.Points(c_.astype(np.int64))) if int_pts else (lambda c_: g.Points(c_.copy()))
+        chk.count(cs_points_dtype="int64" if int_pts else "float64")
+        fr = np.asarray(cs.convert_from_gcs(mk_(coords)).coords, float)
+        to = np.asarray(cs.convert_to_gcs(mk_(coords)).coords, float)
         bm = cs.basis_matrix
         k_hat = np.cross(i_hat, j_hat)
         evaluations += 3
